@@ -10,6 +10,7 @@ import (
 	"path/filepath"
 	"regexp"
 	"sort"
+	"strconv"
 	"strings"
 	"sync"
 	"time"
@@ -1831,8 +1832,33 @@ func criticalObligations(g *Gen, fn *ssa.Function, key string, ci int, from, to 
 	}
 	var fromS, toS []site
 	var unlocks []site
+	// name#k: the k-th call of name in block order, where name is called more than once
+	ordOf := func(n string) (string, int) {
+		if i := strings.LastIndex(n, "#"); i > 0 {
+			if k, err := strconv.Atoi(n[i+1:]); err == nil {
+				return n[:i], k
+			}
+		}
+		return n, -1
+	}
+	from, fromK := ordOf(from)
+	to, toK := ordOf(to)
+	// mapupdate(f): an assignment m[k] = v to the map held in field f counts as a "call"
+	mapUpd := func(in ssa.Instruction, name string) bool {
+		mu, ok := in.(*ssa.MapUpdate)
+		if !ok || !strings.HasPrefix(name, "mapupdate(") || !strings.HasSuffix(name, ")") {
+			return false
+		}
+		return chanFromField(mu.Map, strings.TrimSuffix(strings.TrimPrefix(name, "mapupdate("), ")"))
+	}
 	for _, b := range fn.Blocks {
 		for i, in := range b.Instrs {
+			if mapUpd(in, from) {
+				fromS = append(fromS, site{b, i, in})
+			}
+			if mapUpd(in, to) {
+				toS = append(toS, site{b, i, in})
+			}
 			call, ok := in.(*ssa.Call)
 			if !ok {
 				continue
@@ -1849,8 +1875,15 @@ func criticalObligations(g *Gen, fn *ssa.Function, key string, ci int, from, to 
 			}
 		}
 	}
+	pick := func(ss []site, k int) []site {
+		if k >= 0 && k < len(ss) {
+			return ss[k : k+1]
+		}
+		return ss
+	}
+	fromS, toS = pick(fromS, fromK), pick(toS, toK)
 	if len(fromS) != 1 || len(toS) != 1 {
-		return nil, fmt.Sprintf("critical %s .. %s: each must be called exactly once in %s (found %d and %d)", from, to, ShortKey(key), len(fromS), len(toS))
+		return nil, fmt.Sprintf("critical %s .. %s: each must be called exactly once (or be given as name#k) in %s (found %d and %d)", from, to, ShortKey(key), len(fromS), len(toS))
 	}
 	blockReach := func(a, b *ssa.BasicBlock) bool { // b reachable from a through at least one edge
 		seen := map[*ssa.BasicBlock]bool{}
